@@ -253,8 +253,13 @@ class Skel:
                     # their ingredients are the caller's
                     body = _read_through(self.ctx, q, t[2], pinned_ok=True)
                     if body is not None:
-                        self.walk(body, depth + 1)
-                        return
+                        sub = Skel(self.ctx)
+                        sub.walk(body, depth + 1)
+                        if sub.items - {i for i in sub.items if i.startswith(("param:", "path:"))} and not sub.open:
+                            self.items |= sub.items
+                            self.std |= sub.std
+                            return
+                        # nothing readable inside (it awaits / loops): the call itself is the ingredient
                 self.items.add("call:%s" % _short(q))
                 self._const_operands(t[2])
             for a in t[2]:
